@@ -38,6 +38,8 @@ def match_known(prop, v, known):
             continue
         if "history_not_contains" in m and any(x in hist for x in m["history_not_contains"]):
             continue
+        if "history_contains_any" in m and not any(x in hist for x in m["history_contains_any"]):
+            continue
         if "args_contain" in m and not all(x in " ".join(v.args or []) for x in m["args_contain"]):
             continue
         if "message_contains" in m and m["message_contains"] not in (v.message or ""):
